@@ -47,6 +47,60 @@ let string_of_items (l : (z * msg) list) : string =
 let string_of_res (f : 'a -> string) (r : 'a res) : string =
   match r with Ok a -> f a | Panic s -> "PANIC" | OutOfFuel -> "OUTOFFUEL" | Unsupported w -> "UNSUPPORTED:" ^ string_of_z w
 
+(* ---- C03: programs of the core note language as a token stream (see tools/astgen.py) ---- *)
+let oint (f : string) : z option = if f = "-" then None else Some (z_of_string f)
+let olen_of (f : string) : expr option =
+  if f = "-" then None else
+  match String.split_on_char '|' f with
+  | [h; ps] -> Some (expr_of_fields h ps)
+  | _ -> raise (Bad ("len:" ^ f))
+let rec parse_cmds (toks : string list) (stop : string list) : cmd list * string list =
+  match toks with
+  | [] -> ([], [])
+  | t :: _ when List.mem t stop -> ([], toks)
+  | _ -> let (c, rest) = parse_cmd toks in let (cs, rest') = parse_cmds rest stop in (c :: cs, rest')
+and parse_cmd (toks : string list) : cmd * string list =
+  match toks with
+  | "N" :: b :: a :: n :: l :: g :: v :: t :: o :: r ->
+      (CNote (z_of_string b, z_of_string a, n = "1", olen_of l, oint g, oint v, oint t, oint o), r)
+  | "M" :: no :: l :: g :: v :: t :: r -> (CNoteN (z_of_string no, olen_of l, oint g, oint v, oint t), r)
+  | "R" :: l :: r -> (CRest (olen_of l), r)
+  | "L" :: l :: r -> (CLen (olen_of l), r)
+  | "O" :: v :: r -> (COct (z_of_string v), r)
+  | "V" :: v :: r -> (CVel (z_of_string v), r)
+  | "Q" :: v :: r -> (CGate (z_of_string v), r)
+  | "T" :: v :: r -> (CTiming (z_of_string v), r)
+  | ">" :: r -> (COctUp, r) | "<" :: r -> (COctDown, r) | ")" :: r -> (CVelUp, r) | "(" :: r -> (CVelDown, r)
+  | "[" :: n :: r ->
+      let (body, r1) = parse_cmds r [":"; "]"] in
+      (match r1 with
+       | ":" :: r2 -> let (b, r3) = parse_cmds r2 ["]"] in
+           (match r3 with "]" :: r4 -> (CLoop (oint n, body, Some b), r4) | _ -> raise (Bad "loop"))
+       | "]" :: r2 -> (CLoop (oint n, body, None), r2)
+       | _ -> raise (Bad "loop"))
+  | "H{" :: r ->
+      let (items, r1) = parse_cmds r ["}H"] in
+      (match r1 with "}H" :: l :: g :: v :: r2 -> (CChord (items, olen_of l, oint g, oint v), r2) | _ -> raise (Bad "chord"))
+  | "D{" :: r ->
+      let (items, r1) = parse_cmds r ["}D"] in
+      (match r1 with "}D" :: l :: r2 -> (CTuplet (items, olen_of l), r2) | _ -> raise (Bad "tuplet"))
+  | "S{" :: r ->
+      let (items, r1) = parse_cmds r ["}S"] in
+      (match r1 with "}S" :: r2 -> (CSub items, r2) | _ -> raise (Bad "sub"))
+  | "TR" :: n :: r -> (CTrack (z_of_string n), r)
+  | "CH" :: n :: r -> (CChannel (z_of_string n), r)
+  | "@" :: n :: r -> (CVoice (z_of_string n), r)
+  | "KF" :: sg :: ls :: r -> (CKeyFlag (sg = "+", ints_of_field ls), r)
+  | "KS" :: k :: r -> (CKeyShift (z_of_string k), r)
+  | "TK" :: k :: r -> (CTrackKey (z_of_string k), r)
+  | t :: _ -> raise (Bad ("cmd:" ^ t))
+  | [] -> raise (Bad "cmd:eof")
+let string_of_notes (p : perf) : string =
+  String.concat "/" (List.map (fun t ->
+    if t.t_notes = [] then "-" else
+    String.concat "," (List.map (fun n -> Printf.sprintf "%s:%s:%s:%s:%s" (string_of_z n.n_ch) (string_of_z n.n_key)
+      (string_of_z n.n_start) (string_of_z n.n_dur) (string_of_z n.n_vel)) t.t_notes)) p.p_tracks)
+
 let dispatch (fields : string list) : string =
   match fields with
   | ["calc_length"; s; tb; d] ->
@@ -61,6 +115,14 @@ let dispatch (fields : string list) : string =
   | ["get_note_length"; s] ->
       let ((t, r), ln) = get_note_length (text_of_field s) Z0 in
       field_of_text t ^ "\t" ^ string_of_int (List.length r) ^ "\t" ^ string_of_z ln
+  | ["note_spec"; ast] ->
+      let (prog, rest) = parse_cmds (List.filter (fun x -> x <> "") (String.split_on_char ' ' ast)) [] in
+      if rest <> [] then "BAD:trailing" else
+      field_of_text (pprog prog) ^ "\t" ^ string_of_notes (denote_prog prog)
+  | ["compile_core"; src] ->
+      (match compile (text_of_field src) with
+       | Ok (bytes, log) -> field_of_bytes bytes ^ "\t" ^ field_of_text log
+       | Panic _ -> "PANIC" | OutOfFuel -> "OUTOFFUEL" | Unsupported w -> "UNSUPPORTED:" ^ string_of_z w)
   | ["generate"; tb; tracks] ->
       string_of_res field_of_bytes (generate (z_of_string tb) (tracks_of_field tracks))
   | ["container"; bytes] ->
